@@ -136,17 +136,18 @@ func vfStartTransfer(sess *vfSession, cfg vfPairCfg, paths []string, dest string
 		sess.tunS2C.binary = !cfg.Upload
 	}
 	flags := vfServerFlags(cfg)
+	given := vfSpellDest(dest, sess.opts.DestSpell)
 	if cfg.Upload {
 		ch, err := sess.filter.OneTimeUpload(paths)
 		if err != nil {
 			return nil, err
 		}
 		r.uploadRes = ch
-		if err := sess.startServer("trz", append(flags, dest), dest); err != nil {
+		if err := sess.startServer("trz", append(flags, given), dest); err != nil {
 			return nil, err
 		}
 	} else {
-		sess.filter.SetDefaultDownloadPath(dest)
+		sess.filter.SetDefaultDownloadPath(given)
 		if err := sess.startServer("tsz", append(flags, paths...), filepath.Dir(paths[0])); err != nil {
 			return nil, err
 		}
